@@ -66,6 +66,8 @@ func createCmd(globalCfg *globalConfig, cfg *createConfig) error {
 		if err != nil {
 			return fmt.Errorf("failed to create big index writer: %w", err)
 		}
+		// runs before the deferred tempDB.Close(), which waits for open transactions
+		defer idx.Close()
 
 		iw = idx
 	} else {
